@@ -340,6 +340,8 @@ class World:
                 p.deferred.append(evd)
             else:
                 self.ev(**evd)
+        elif name == "recreated":
+            self.ev(e="recreated", pid=p.pid)
         else:
             self.ev(e="api", pid=p.pid, name=name, data={k: v for k, v in r.items() if k not in ("op", "name")})
 
